@@ -170,6 +170,9 @@ func loadModel(repo string) (*Model, error) {
 			}
 		}
 	}
+	if err := m.spec.resolveImplements(); err != nil {
+		return nil, err
+	}
 	// declare all structs of the analysed packages up front
 	for _, sp := range spkgs {
 		if sp == nil {
